@@ -35,7 +35,7 @@ ASSUMPTIONS = [
     "every output layer of c has the full scope (outputs over sub-scopes are not generated)",
 ]
 FLOOR = {"ids:iter-unsorted": 1, "prod:arity>=3": 1, "order>=2": 1, "order>degree": 1, "multi-output": 1, "prod:kronecker": 1,
-         "operand:product": 1, "derivatives_compared": 300, "autograd_compared": 50}
+         "operand:product": 1, "derivatives_compared": 300, "autograd_compared": 50, "pipeline-repeat-orders": 1}
 
 
 def plan(tier, seed):
@@ -206,4 +206,36 @@ def run_case(case) -> Result:
                     if not ok:
                         res.violate("derivative-vs-autograd", f"[{tag}] output {oi} unit {k}: at {idx}: {msg}")
                         break
+    if not res.violations and case["k"] % 2 == 0:
+        pipeline_level(res, rng, c, domains, ids, X)
     return res
+
+
+def pipeline_level(res: Result, rng, c, domains, ids, X):
+    """The same property through the pipeline interface: differentiating one compiled circuit
+    several times with different orders in one context must give each order's derivatives."""
+    import cirkit.pipeline as PL
+
+    orders = [rng.choice([1, 2, 3]), rng.choice([1, 2, 3]), rng.choice([1, 2])]
+    ctx = PL.PipelineContext(backend="torch", semiring="sum-product", fold=rng.random() < 0.5, optimize=rng.random() < 0.5)
+    O, K, n = len(c.outputs), c.outputs[0].num_output_units, len(ids)
+    with ctx:
+        cc0 = ctx.compile(c)
+        leaf = tie.leaf_reader(ctx._compiler)  # pylint: disable=protected-access
+        for j, order in enumerate(orders):
+            o = call(lambda: PL.differentiate(cc0, order=order) if j % 2 else ctx.differentiate(cc0, order=order))
+            if not o.ok:
+                exc_violation(res, o, f"ctx.differentiate(order={order}) (call #{j + 1} in one context, orders {orders})")
+                return
+            got = call(C.evaluate, o.value, X)
+            if not got.ok or got.value.shape != (X.shape[0], O * (n + 1), K):
+                res.violate("pipeline-differentiate", f"call #{j + 1} with order={order} (orders {orders}): bad output {got.exc or got.value.shape}")
+                return
+            D, S = true_derivatives(c, leaf, X, ids, order)
+            g = got.value.reshape(X.shape[0], O, n + 1, K)[:, :, :n, :]
+            ok, idx, msg = close_lin(np.moveaxis(g, 1, 2), D, S, "fft" if c.operation is not None else "exact")
+            res.count("derivatives_compared", int(D.size))
+            res.features.add("pipeline-repeat-orders")
+            if not ok:
+                res.violate("pipeline-differentiate", f"ctx.differentiate call #{j + 1} with order={order} after orders {orders[:j]} does not return the order-{order} derivatives: at {idx}: {msg}")
+                return
